@@ -460,6 +460,18 @@ pub fn run(args: &[String]) -> i32 {
         if samples.len() < 3 { samples.push(json!({"mt": c.mt, "base": base})); }
     }
 
+    // ---- rule-shaped messages: every fact vector of Rules.tla (value combinations no layout walk has: one charges
+    //      field without the other, unequal sums, code words in every place) through the whole session -----------
+    if let Some(path) = arg(args, "--rule-texts") {
+        if let Ok(fh) = std::fs::File::open(path) {
+            for line in std::io::BufReader::new(fh).lines().map_while(|l| l.ok()) {
+                let v: Value = match serde_json::from_str(&line) { Ok(v) => v, Err(_) => continue };
+                let (mt, text) = (v["mt"].as_str().unwrap_or("").to_string(), v["text"].as_str().unwrap_or("").to_string());
+                with_mt!(mt.as_str(), T => message_session::<T>(&mut rec, &text), else ());
+            }
+        }
+    }
+
     // ---- envelopes: block markers and terminators in hostile places, every truncation ----------------
     {
         let env_bases: Vec<(&str, String)> = vec![
